@@ -12,12 +12,12 @@ import (
 )
 
 var c02Alphabets = map[string][]string{
-	"ascii":     {"a", "b", "x", "_", "1", " ", "=", "(", ")", "\"", "-", ".", "\t"},
+	"ascii":     {"a", "b", "x", "_", "1", " ", "=", "(", ")", "\"", "-", ".", "\t", ":", "obj:meth(", "t.k:m"},
 	"twobyte":   {"é", "я", "ß", "ñ", "Ω", "a", " ", "="},
 	"threebyte": {"中", "€", "한", "文", "x", " ", "\""},
 	"astral":    {"😀", "𝔘", "🚀", "a", " ", "-"},
 	"combining": {"é", "ä", "x", " "},
-	"mixed":     {"a", "é", "中", "😀", " ", "=", "-", "\"", "я", "𝔘", "1", "\t"},
+	"mixed":     {"a", "é", "中", "😀", " ", "=", "-", "\"", "я", "𝔘", "1", "\t", ":", "ab:cd("},
 }
 
 var c02LineEnds = map[string][]string{
@@ -83,10 +83,11 @@ func c02GenInsert(r *Rng, alpha, les []string) string {
 }
 
 type c02Step struct {
-	Op      string   `json:"op"`
-	Doc     int      `json:"doc"`
-	Changes []Change `json:"changes,omitempty"`
-	Text    string   `json:"text,omitempty"`
+	Op      string    `json:"op"`
+	Doc     int       `json:"doc"`
+	Changes []Change  `json:"changes,omitempty"`
+	Text    string    `json:"text,omitempty"`
+	Pos     *Position `json:"position,omitempty"` // op "query": Text is the request method
 }
 
 type c02History struct {
@@ -146,6 +147,11 @@ func c02GenHistory(r *Rng) c02History {
 		}
 		k := r.Intn(20)
 		switch {
+		case k == 5 || k == 6:
+			// a read-only request at an addressable position of the client's text: the server's copy stays what it is
+			pp := models[d].PosAt(c02PickOffset(r, models[d]))
+			h.Steps = append(h.Steps, c02Step{Op: "query", Doc: d, Pos: &pp, Text: r.Pick([]string{"textDocument/hover", "textDocument/definition", "textDocument/references",
+				"textDocument/documentHighlight", "textDocument/signatureHelp", "textDocument/completion", "textDocument/rename"})})
 		case k == 4 && r.Fork(uint64(s)).Chance(1, 3):
 			// the file of an open document is deleted on disk (watched-file event): the editor keeps editing its buffer
 			h.Steps = append(h.Steps, c02Step{Op: "deleted-on-disk", Doc: d})
@@ -411,6 +417,21 @@ func c02RunHistory(c *Ctx, srv *Server, ws *Workspace, idx int, h c02History) bo
 			ws.Write(fmt.Sprintf("h%d_d%d.lua", idx, d), st.Text)
 			srv.DidSave(uris[d], st.Text)
 			c.Count("op_save", 1)
+		case "query":
+			params := tdPos(uris[d], st.Pos.Line, st.Pos.Character)
+			switch st.Text {
+			case "textDocument/references":
+				params["context"] = map[string]interface{}{"includeDeclaration": true}
+			case "textDocument/rename":
+				params["newName"] = "renamedByQuery"
+			case "textDocument/completion":
+				params["context"] = map[string]interface{}{"triggerKind": 1}
+			}
+			if _, err := srv.Request(st.Text, params); err != nil {
+				c.Inconclusive("server stopped answering during a C02 history (C01's business)")
+				return false
+			}
+			c.Count("op_query", 1)
 		case "deleted-on-disk":
 			rel := fmt.Sprintf("h%d_d%d.lua", idx, d)
 			ws.Delete(rel)
